@@ -104,6 +104,7 @@ pub fn eval(case: &Case) -> Verdict {
             }
         }
         "parse" => check_parse_range(Kind::from_index(case.i[0] as usize), &case.s[0], &case.s[1]).map(|_| ()),
+        "constant" => check_constant(case.i[0] as usize),
         "now_leap" => super::c18::check_now_leap(case.i[0] as i32, case.i[1] as u32, case.i[2] as u32, case.i[3] as u32),
         "decode_int" => super::c15::check_decode_int(Kind::from_index(case.i[0] as usize), case.i[1], case.i[2] as usize).map(|_| ()),
         "ts_add_days" => c08::check_add_days(case.i[0], i2f(case.i[1]), case.i[2] != 0).map(|_| ()),
@@ -114,6 +115,32 @@ pub fn eval(case: &Case) -> Verdict {
         Ok(()) => Verdict::Pass,
         Err(m) => Verdict::Fail(m),
     }
+}
+
+/// Public constant number `idx`: equals the documented limit / zero and lies inside the range.
+pub fn check_constant(idx: usize) -> Result<(), String> {
+    use sqldatetime::{Date, IntervalDT, IntervalYM, OracleDate, Time, Timestamp};
+    let consts: Vec<(&str, Kind, i128, i128)> = vec![
+        ("Date::MIN", Kind::Date, Date::MIN.days() as i128, strat::limits(Kind::Date).0),
+        ("Date::MAX", Kind::Date, Date::MAX.days() as i128, strat::limits(Kind::Date).1),
+        ("Time::ZERO", Kind::Time, Time::ZERO.usecs() as i128, 0),
+        ("Time::MAX", Kind::Time, Time::MAX.usecs() as i128, US_PER_DAY - 1),
+        ("Timestamp::MIN", Kind::Ts, Timestamp::MIN.usecs() as i128, ts_min()),
+        ("Timestamp::MAX", Kind::Ts, Timestamp::MAX.usecs() as i128, ts_max()),
+        ("OracleDate::MIN", Kind::Ora, OracleDate::MIN.usecs() as i128, ts_min()),
+        ("OracleDate::MAX", Kind::Ora, OracleDate::MAX.usecs() as i128, ora_max()),
+        ("IntervalYM::MIN", Kind::YM, IntervalYM::MIN.months() as i128, -YM_MAX),
+        ("IntervalYM::MAX", Kind::YM, IntervalYM::MAX.months() as i128, YM_MAX),
+        ("IntervalYM::ZERO", Kind::YM, IntervalYM::ZERO.months() as i128, 0),
+        ("IntervalDT::MIN", Kind::DT, IntervalDT::MIN.usecs() as i128, -DT_MAX),
+        ("IntervalDT::MAX", Kind::DT, IntervalDT::MAX.usecs() as i128, DT_MAX),
+        ("IntervalDT::ZERO", Kind::DT, IntervalDT::ZERO.usecs() as i128, 0),
+    ];
+    let (name, kind, got, want) = consts[idx % consts.len()];
+    if got != want || !ad::in_range(&Val::new(kind, got)) {
+        return Err(format!("{name} has the raw count {got}, the documented limit is {want}"));
+    }
+    Ok(())
 }
 
 pub fn thin(v: Vec<Arg>, max: usize) -> Vec<Arg> {
@@ -379,8 +406,20 @@ pub fn run(ctx: &Ctx) -> (Stats, Report) {
     }
     st.section("clock_constructors_leap_second", &mut mark);
 
+    // the public constants are values handed out by the library too: each must be the documented
+    // limit (MIN / MAX) or zero, hence inside the documented range
+    for idx in 0..14 {
+        st.evaluations += 1;
+        st.nontrivial_enum += 1;
+        st.class("public-constant");
+        if let Err(m) = check_constant(idx) {
+            st.fail(0, Case::new(P, "constant", vec![idx as i128], vec![]), m);
+        }
+    }
+    st.section("public_constants", &mut mark);
+
     let rep = Report {
-        rule: format!("Operation table of {} safe public functions (constructors from fields and raw counts, conversions, the whole add/sub family, negation, mul/div by f64, 12 trunc + 12 round on three types, last_day_of_month, extract, Oracle-style operations) x cross products of boundary+seeded operand pools (first operand full pool, later operands small pools / extreme scalars incl. i32::MIN, u32::MAX, NaN, infinities), plus proptest-generated operands per unary/binary row. Oracle: every returned value (also each half of an extracted pair) satisfies the range predicate of its type (whole seconds for the Oracle-style date); rows with an exact integer model must return Ok(exact) iff the exact value is in range (no wrap, no clamp); month arithmetic must match the month model or fail. Parse: speller-built texts at, near and past the range edges must give Err or an in-range value. Deserialize: integers of every width (i8..u128, via serde's de::value deserializers) at the limits and shifted by multiples of 2^8..2^64 must give Err or exactly the in-range value they denote. Clock: now() / try_from(Time) with the injected clock inside a leap second on boundary dates and both range ends must give Err or an in-range value. Non-trivial = result within one unit period of a range edge, or an error outcome; distinct by (row, operands).", ops.len()),
+        rule: format!("Operation table of {} safe public functions (constructors from fields and raw counts, conversions, the whole add/sub family, negation, mul/div by f64, 12 trunc + 12 round on three types, last_day_of_month, extract, Oracle-style operations) x cross products of boundary+seeded operand pools (first operand full pool, later operands small pools / extreme scalars incl. i32::MIN, u32::MAX, NaN, infinities), plus proptest-generated operands per unary/binary row. Oracle: every returned value (also each half of an extracted pair) satisfies the range predicate of its type (whole seconds for the Oracle-style date); rows with an exact integer model must return Ok(exact) iff the exact value is in range (no wrap, no clamp); month arithmetic must match the month model or fail. Parse: speller-built texts at, near and past the range edges must give Err or an in-range value. Deserialize: integers of every width (i8..u128, via serde's de::value deserializers) at the limits and shifted by multiples of 2^8..2^64 must give Err or exactly the in-range value they denote. The public MIN / MAX / ZERO constants of all six types equal the documented limits. Clock: now() / try_from(Time) with the injected clock inside a leap second on boundary dates and both range ends must give Err or an in-range value. Non-trivial = result within one unit period of a range edge, or an error outcome; distinct by (row, operands).", ops.len()),
         assumptions: vec!["operands are in-range values (built through the checked constructors); scalar arguments are unrestricted".into()],
         exhaustive: false,
         extra: Default::default(),
